@@ -22,7 +22,9 @@ pub fn register_ops_file(path: &str) {
 const NUMS: &[&str] = &["1", "42", "0.5", "1.10", "7", "1234567890123456789012345678", "0.0000000000000000000000000001", "3.", "007",
                        // around the integer types' edges (a literal is a decimal, not an i64 / u64)
                        "9223372036854775807", "9223372036854775808", "9999999999999999999", "18446744073709551616", "4294967296", "79228162514264337593543950335"];
-const STRS: &[&str] = &["'a'", "\"b c\"", "''", "'x\"y'", "\"it's\"", "'é€😀'", "' 1 + 2 '", "'(,;'", "','", "':'", "')'", "']'", "'}'", "';'", "\",\"", "'?'"];
+const STRS: &[&str] = &["'a'", "\"b c\"", "''", "'x\"y'", "\"it's\"", "'é€😀'", "' 1 + 2 '", "'(,;'", "','", "':'", "')'", "']'", "'}'", "';'", "\",\"", "'?'",
+                       // no escape sequences exist: a backslash is a character like any other, also right before the closing quote
+                       "'C:\\temp'", "'a\nb'", "'tab\there'", "'C:\\'", "\"\\\"", "'\\n'"];
 const NAME_TAILS: &[&str] = &["", "", "1", "_t", ".b", "_9.q"];
 const NAME_HEADS: &[&str] = &["", "", "", "é", "@", "_"];
 
